@@ -319,7 +319,7 @@ Qed.
 
 (* the four header records of gdswriter_init followed by ANY structures and ENDLIB *)
 Lemma spec_records_gdswriter name u0 u1 ts blks cs :
-  (length ts = 6)%nat -> no_nul name -> real_ok u0 -> real_ok u1 -> Forall2 block_of blks cs ->
+  (length ts = 6)%nat -> no_nul name -> unit_ok u0 -> unit_ok u1 -> Forall2 block_of blks cs ->
   spec_records (gdswriter_header_records name u0 u1 ts ++ concat blks ++ [mkrec 4 0 []]) =
   Some {| g_name := name; g_units := (u0, u1); g_cells := cs |}.
 Proof.
@@ -328,8 +328,9 @@ Proof.
   rewrite take_str_mk by assumption.
   cbn [skip_libopt libopt mkrec rtype].
   rewrite take1_mk by reflexivity.
+  destruct (units_written u0 u1 Hu0 Hu1) as (Hd0 & Hd1 & Huok). rewrite Huok.
   rewrite (transplant_structures_lemma blks cs (mkrec 4 0 []) [] HF eq_refl).
-  - cbn [mkrec payload]. rewrite d64_enc64 by assumption. rewrite <- (app_nil_r (enc64 u1)). rewrite d64_enc64_1 by assumption. reflexivity.
+  - cbn [mkrec payload]. rewrite Hd0, Hd1. reflexivity.
   - rewrite app_length. cbn [length]. pose proof (block_length_pos _ _ HF). lia.
 Qed.
 
@@ -385,7 +386,7 @@ Proof.
 Qed.
 
 Definition writer_ok (name : bytes) (w : gwriter) : Prop :=
-  no_nul name /\ name_fits name /\ real_ok (fst (gw_units w)) /\ real_ok (snd (gw_units w)) /\ (length (gw_ts w) = 6)%nat.
+  no_nul name /\ name_fits name /\ unit_ok (fst (gw_units w)) /\ unit_ok (snd (gw_units w)) /\ (length (gw_ts w) = 6)%nat.
 
 (* (b) a session mixing cells and raw cells whose bytes are grammar-valid structures: the file is accepted by the strict
    decoder and decodes (hence loads, by reader_accepts_spec) to the cells written and the structures the raw cells stand
